@@ -3,7 +3,7 @@ FAMILY = "cons"
 
 STREAMS = {
     # cases = whole multi-instance, multi-epoch scenarios (30–120 events quick, up to 280 thorough)
-    "cons": {"quick": 300, "thorough": 1500, "trivial": ["bad-op", "na", "unknown-event"], "timeout": 3000},
+    "cons": {"quick": 300, "thorough": 1500, "trivial": ["bad-op", "na", "unknown-event"], "timeout": 3000, "keep_ops": ["vals", "seal", "inst"]},
 }
 
 _REF = ("Reference = lean/LachesisVerif/Spec/Lachesis.lean: an independent naive implementation of the Lachesis rules written from the "
